@@ -69,6 +69,13 @@ Definition to_mdesc (r : rdesc) : option mdesc :=
   | _, _ => None
   end.
 
+(* Small repairs proposed for four of the recorded defects (proposed_fixes/C07-*.diff).  The model
+   carries one switch per repair so that the correspondence run recognises otto with any subset of
+   them applied; [nofix] is the tree as it stands. *)
+Record fixes := mkFx { fx_writable : bool; fx_acc2data : bool; fx_getundef : bool; fx_forindel : bool }.
+Definition nofix : fixes := mkFx false false false false.
+Definition allfix : fixes := mkFx true true true true.
+
 (* ---------- object_class.go objectDefineOwnProperty, existing property ---------- *)
 Inductive dres := DOk (p : mprop) | DUnchanged | DReject.
 
@@ -82,7 +89,7 @@ Definition merge_mode (mode0 mode1 : mode) (isdata : bool) : mode :=
   let m := if negb (N.eqb (N.land m 2) 0) then N.lor m (N.land mode0 1) else m in
   N.land m 201.                                                          (* 0o311 *)
 
-Definition m_define_existing (p : mprop) (d : mdesc) : dres :=
+Definition m_define_existing (fx : fixes) (p : mprop) (d : mdesc) : dres :=
   if d_isEmpty d then DUnchanged else
   let conf := configurable (sm p) in
   if negb conf && configurable (dm d) then DReject else
@@ -118,11 +125,12 @@ Definition m_define_existing (p : mprop) (d : mdesc) : dres :=
       let dv := match ov with Some x => x | None => dp d end in
       let value1 : spay :=
         match dv with
-        | DNone => sp p
+        | DNone => if fx_acc2data fx && negb stored_is_data && d_isData d then SVal VUndef else sp p
         | DVal v => SVal v
         | DGetSet g s => SGetSet (norm_slot g) (norm_slot s)
         end in
-      DOk (mkMP value1 (merge_mode (sm p) (dm d) (d_isData d)))
+      DOk (mkMP value1 (merge_mode (sm p) (dm d)
+                                   (d_isData d || (fx_writable fx && stored_is_data && d_isGeneric d))))
   end.
 
 Definition m_define_new (d : mdesc) : mprop :=
@@ -136,11 +144,11 @@ Record mobj := mkMO { m_proto : option nat; m_ext : bool; m_props : list (Z * mp
 
 (* deviation tags of one [[DefineOwnProperty]]: 1 writable lost, 3 getter pair under a data mode,
    4 accessor with both slots nil *)
-Definition define_tag (p : mprop) (d : mdesc) (p' : mprop) : Z :=
+Definition define_tag (fx : fixes) (p : mprop) (d : mdesc) (p' : mprop) : Z :=
   match sp p' with
   | SGetSet g s =>
       if writeSet (sm p') then 3
-      else match g, s with None, None => 4 | _, _ => 0 end
+      else match g, s with None, None => if fx_getundef fx then 0 else 4 | _, _ => 0 end
   | SVal _ =>
       match sp p with
       | SVal _ => if writable (sm p) && negb (writable (sm p')) && negb (writeSet (dm d)) then 1 else 0
@@ -149,17 +157,17 @@ Definition define_tag (p : mprop) (d : mdesc) (p' : mprop) : Z :=
   end.
 
 (* (object or reject, tag) *)
-Definition m_define_own (o : mobj) (n : Z) (d : mdesc) : option mobj * Z :=
+Definition m_define_own (fx : fixes) (o : mobj) (n : Z) (d : mdesc) : option mobj * Z :=
   match lookup (m_props o) n with
   | None =>
       if m_ext o then
         let p' := m_define_new d in
         (Some (mkMO (m_proto o) (m_ext o) (set_prop (m_props o) n p')),
-         match sp p' with SGetSet None None => 4 | _ => 0 end)
+         match sp p' with SGetSet None None => if fx_getundef fx then 0 else 4 | _ => 0 end)
       else (None, 0)
   | Some p =>
-      match m_define_existing p d with
-      | DOk p' => (Some (mkMO (m_proto o) (m_ext o) (set_prop (m_props o) n p')), define_tag p d p')
+      match m_define_existing fx p d with
+      | DOk p' => (Some (mkMO (m_proto o) (m_ext o) (set_prop (m_props o) n p')), define_tag fx p d p')
       | DUnchanged => (Some o, 0)
       | DReject => (None, 0)
       end
@@ -228,7 +236,7 @@ Definition m_can_put_details (h : mheap) (a : nat) (n : Z) : bool * option mprop
   end.
 
 (* objectPut with throw = false: heap, setter call, tag *)
-Definition m_put (h : mheap) (a : nat) (n : Z) (v : val) : mheap * list Z * Z :=
+Definition m_put (fx : fixes) (h : mheap) (a : nat) (n : Z) (v : val) : mheap * list Z * Z :=
   match nth_error h a with
   | None => (h, [], 0)
   | Some o =>
@@ -241,7 +249,7 @@ Definition m_put (h : mheap) (a : nat) (n : Z) (v : val) : mheap * list Z * Z :=
                         | Some p => mkMD (DVal v) (sm p)
                         | None => mkMD (DVal v) 73%N              (* 0o111 *)
                         end in
-               match m_define_own o n d with
+               match m_define_own fx o n d with
                | (Some o', t) => (upd h a o', [], t)
                | (None, t) => (h, [], t)
                end
@@ -249,15 +257,15 @@ Definition m_put (h : mheap) (a : nat) (n : Z) (v : val) : mheap * list Z * Z :=
   end.
 
 (* Object.defineProperties / Object.create: convert and define one entry at a time *)
-Fixpoint m_define_each (o : mobj) (l : list (Z * rdesc)) (first : bool) : mobj * bool * Z :=
+Fixpoint m_define_each (fx : fixes) (o : mobj) (l : list (Z * rdesc)) (first : bool) : mobj * bool * Z :=
   match l with
   | [] => (o, false, 0)
   | (n, r) :: l' =>
       match to_mdesc r with
       | None => (o, true, if first then 0 else 5)
       | Some d =>
-          match m_define_own o n d with
-          | (Some o', t) => let '(o'', threw, t') := m_define_each o' l' false in
+          match m_define_own fx o n d with
+          | (Some o', t) => let '(o'', threw, t') := m_define_each fx o' l' false in
                             (o'', threw, if t =? 0 then t' else t)
           | (None, t) => (o, true, t)
           end
@@ -265,22 +273,22 @@ Fixpoint m_define_each (o : mobj) (l : list (Z * rdesc)) (first : bool) : mobj *
   end.
 
 (* Object.seal / Object.freeze: enumerate(all) over the own names, redefine with the adjusted copy *)
-Fixpoint m_restrict (freeze : bool) (o : mobj) (names : list Z) : mobj * Z :=
+Fixpoint m_restrict (fx : fixes) (freeze : bool) (o : mobj) (names : list Z) : mobj * Z :=
   match names with
   | [] => (o, 0)
   | n :: rest =>
       match lookup (m_props o) n with
-      | None => m_restrict freeze o rest
+      | None => m_restrict fx freeze o rest
       | Some p =>
           let m := sm p in
           let '(m, upd1) := if freeze && p_isData p && writable m then (writeOff m, true) else (m, false) in
           let '(m, upd2) := if configurable m then (configureOff m, true) else (m, false) in
           if (if freeze then upd1 || upd2 else upd2) then
-            match m_define_own o n (desc_of_prop (mkMP (sp p) m)) with
-            | (Some o', t) => let '(o'', t') := m_restrict freeze o' rest in (o'', if t =? 0 then t' else t)
+            match m_define_own fx o n (desc_of_prop (mkMP (sp p) m)) with
+            | (Some o', t) => let '(o'', t') := m_restrict fx freeze o' rest in (o'', if t =? 0 then t' else t)
             | (None, t) => (o, t)                      (* would throw; never happens for a configurable property *)
             end
-          else m_restrict freeze o rest
+          else m_restrict fx freeze o rest
       end
   end.
 
@@ -319,7 +327,7 @@ Definition shift_array (arr : list Z) (len : nat) (n : Z) : list Z :=
               else remove_at i (firstn len arr) ++ skipn (len - 1) arr
   end.
 
-Fixpoint m_forin_obj (k : nat) (j : nat) (arr : list Z) (h : mheap) (cur : nat)
+Fixpoint m_forin_obj (fx : fixes) (k : nat) (j : nat) (arr : list Z) (h : mheap) (cur : nat)
          (at_n : Z) (a2 : nat) (del_n : Z) (visited : list Z) : mheap * list Z :=
   match k with
   | O => (h, visited)
@@ -334,15 +342,16 @@ Fixpoint m_forin_obj (k : nat) (j : nat) (arr : list Z) (h : mheap) (cur : nat)
               let o2 := nth a2 h mempty in
               let '(o2', _) := m_delete_own o2 del_n in
               let deleted := negb (Nat.eqb (length (m_props o2')) (length (m_props o2))) in
-              let arr' := if deleted && Nat.eqb a2 cur then shift_array arr (length (m_props o2)) del_n else arr in
-              m_forin_obj k' (S j) arr' (upd h a2 o2') cur at_n a2 del_n visited
-            else m_forin_obj k' (S j) arr h cur at_n a2 del_n visited
-          else m_forin_obj k' (S j) arr h cur at_n a2 del_n visited
-      | None => m_forin_obj k' (S j) arr h cur at_n a2 del_n visited
+              let arr' := if deleted && Nat.eqb a2 cur && negb (fx_forindel fx)
+                          then shift_array arr (length (m_props o2)) del_n else arr in
+              m_forin_obj fx k' (S j) arr' (upd h a2 o2') cur at_n a2 del_n visited
+            else m_forin_obj fx k' (S j) arr h cur at_n a2 del_n visited
+          else m_forin_obj fx k' (S j) arr h cur at_n a2 del_n visited
+      | None => m_forin_obj fx k' (S j) arr h cur at_n a2 del_n visited
       end
   end.
 
-Fixpoint m_forin_del (fuel : nat) (h : mheap) (cur : nat) (at_n : Z) (a2 : nat) (del_n : Z)
+Fixpoint m_forin_del (fx : fixes) (fuel : nat) (h : mheap) (cur : nat) (at_n : Z) (a2 : nat) (del_n : Z)
          (visited : list Z) : mheap * list Z :=
   match fuel with
   | O => (h, visited)
@@ -351,10 +360,10 @@ Fixpoint m_forin_del (fuel : nat) (h : mheap) (cur : nat) (at_n : Z) (a2 : nat) 
       | None => (h, visited)
       | Some o =>
           let arr := m_own_names o in
-          let '(h', visited') := m_forin_obj (length arr) 0 arr h cur at_n a2 del_n visited in
+          let '(h', visited') := m_forin_obj fx (length arr) 0 arr h cur at_n a2 del_n visited in
           match m_proto o with
           | None => (h', visited')
-          | Some pa => m_forin_del f h' pa at_n a2 del_n visited'
+          | Some pa => m_forin_del fx f h' pa at_n a2 del_n visited'
           end
       end
   end.
@@ -383,30 +392,30 @@ Definition m_obj (s : mstate) (a : nat) : mobj := nth a (ms_heap s) mempty.
 Definition m_set_obj (s : mstate) (a : nat) (o : mobj) : mstate := mkMS (upd (ms_heap s) a o) (ms_vars s).
 
 (* (state, result, tag) *)
-Definition mstep (s : mstate) (o : op) : mstate * list Z * Z :=
+Definition mstep (fx : fixes) (s : mstate) (o : op) : mstate * list Z * Z :=
   match o with
   | ODefine i n r =>
       let a := mvar s i in
       match to_mdesc r with
       | None => (s, [1], 0)
-      | Some d => match m_define_own (m_obj s a) n d with
+      | Some d => match m_define_own fx (m_obj s a) n d with
                   | (Some o', t) => (m_set_obj s a o', [0], t)
                   | (None, t) => (s, [1], t)
                   end
       end
   | ODefines i l =>
       let a := mvar s i in
-      let '(o', threw, t) := m_define_each (m_obj s a) l true in
+      let '(o', threw, t) := m_define_each fx (m_obj s a) l true in
       let bad := existsb (fun e => match to_mdesc (snd e) with None => true | Some _ => false end) l in
       (m_set_obj s a o', [b2z threw], if t =? 0 then (if bad then 5 else 0) else t)
   | OCreate i p l =>
       let proto := match p with Some j => Some (mvar s j) | None => None end in
-      let '(o', threw, t) := m_define_each (mkMO proto true []) (odef l []) true in
+      let '(o', threw, t) := m_define_each fx (mkMO proto true []) (odef l []) true in
       if threw then (s, [1], 0)
       else (mkMS (ms_heap s ++ [o']) (upd (ms_vars s) i (length (ms_heap s))), [0], if t =? 5 then 0 else t)
   | OPut i n v =>
       let a := mvar s i in
-      let '(h', log, t) := m_put (ms_heap s) a n v in
+      let '(h', log, t) := m_put fx (ms_heap s) a n v in
       (mkMS h' (ms_vars s), 0 :: log, t)
   | ODelete i n =>
       let a := mvar s i in
@@ -415,28 +424,28 @@ Definition mstep (s : mstate) (o : op) : mstate * list Z * Z :=
   | OFreeze i =>
       let a := mvar s i in
       let o := m_obj s a in
-      let '(o', t) := m_restrict true o (m_own_names o) in
+      let '(o', t) := m_restrict fx true o (m_own_names o) in
       (m_set_obj s a (mkMO (m_proto o') false (m_props o')), [0], t)
   | OSeal i =>
       let a := mvar s i in
       let o := m_obj s a in
-      let '(o', t) := m_restrict false o (m_own_names o) in
+      let '(o', t) := m_restrict fx false o (m_own_names o) in
       (m_set_obj s a (mkMO (m_proto o') false (m_props o')), [0], t)
   | OPrevent i =>
       let a := mvar s i in
       let o := m_obj s a in (m_set_obj s a (mkMO (m_proto o) false (m_props o)), [0], 0)
   | OForInDel i at_n i2 del_n =>
       let h := ms_heap s in
-      let '(h', vis) := m_forin_del (length h) h (mvar s i) at_n (mvar s i2) del_n [] in
-      let deleted := negb (Nat.eqb (length (m_props (nth (mvar s i2) h' mempty)))
-                                   (length (m_props (nth (mvar s i2) h mempty)))) in
+      let '(h', vis) := m_forin_del fx (length h) h (mvar s i) at_n (mvar s i2) del_n [] in
       (mkMS h' (ms_vars s), [0; pack vis],
-       if deleted then 6
+       (* 6 only when the shifted order array changed what was visited *)
+       if negb (zlist_eqb vis (snd (m_forin_del (mkFx false false false true) (length h) h
+                                               (mvar s i) at_n (mvar s i2) del_n []))) then 6
        else if zlist_eqb vis (m_forin_seen (length h) h (mvar s i) []) then 0 else 2)
   end.
 
 (* ---------- observation (fromPropertyDescriptor etc.); None = a Go panic escapes ---------- *)
-Definition m_obs_desc (p : option mprop) : option (list Z) :=
+Definition m_obs_desc (fx : fixes) (p : option mprop) : option (list Z) :=
   match p with
   | None => Some [0; 0; 0; 0; 0]
   | Some p =>
@@ -446,7 +455,7 @@ Definition m_obs_desc (p : option mprop) : option (list Z) :=
         | SVal v => Some [1; enc_val v; b2z (writable (sm p)) + ec; 0; 0]
         | SGetSet _ _ => None                   (* descriptor.value.(Value) on a getter/setter pair *)
         end
-      else if p_isAccessor p then
+      else if p_isAccessor p || (fx_getundef fx && match sp p with SGetSet _ _ => true | SVal _ => false end) then
         match sp p with
         | SGetSet g s => Some [2; 0; ec; match g with Some f => f + 1 | None => 0 end;
                                match s with Some f => f + 1 | None => 0 end]
@@ -455,9 +464,9 @@ Definition m_obs_desc (p : option mprop) : option (list Z) :=
       else Some [3; 0; ec; 0; 0]
   end.
 
-Definition m_obs_name (h : mheap) (a : nat) (o : mobj) (n : Z) : option (list Z) :=
+Definition m_obs_name (fx : fixes) (h : mheap) (a : nat) (o : mobj) (n : Z) : option (list Z) :=
   let own := lookup (m_props o) n in
-  match m_obs_desc own with
+  match m_obs_desc fx own with
   | None => None
   | Some d =>
       Some (d ++
@@ -474,17 +483,17 @@ Fixpoint opt_concat (l : list (option (list Z))) : option (list Z) :=
   | Some x :: l' => match opt_concat l' with Some r => Some (x ++ r) | None => None end
   end.
 
-Definition m_obs_obj (h : mheap) (a : nat) : option (list Z) :=
+Definition m_obs_obj (fx : fixes) (h : mheap) (a : nat) : option (list Z) :=
   let o := nth a h mempty in
-  match opt_concat (map (m_obs_name h a o) names) with
+  match opt_concat (map (m_obs_name fx h a o) names) with
   | None => None
   | Some l =>
       Some (l ++ [ b2z (m_ext o) + 2 * b2z (m_is_sealed o) + 4 * b2z (m_is_frozen o);
                    pack (m_own_keys o); pack (m_own_names o); pack (m_forin (length h) h a) ])
   end.
 
-Definition m_snapshot (s : mstate) : option (list Z) :=
-  opt_concat (map (fun i => m_obs_obj (ms_heap s) (mvar s i)) [0; 1; 2]%nat).
+Definition m_snapshot (fx : fixes) (s : mstate) : option (list Z) :=
+  opt_concat (map (fun i => m_obs_obj fx (ms_heap s) (mvar s i)) [0; 1; 2]%nat).
 
 Definition m_snapshot_tag (s : mstate) : Z :=
   let h := ms_heap s in
@@ -493,16 +502,16 @@ Definition m_snapshot_tag (s : mstate) : Z :=
 
 (* observations of a history and the tag of the first deviating branch taken;
    a Go panic (9) ends the script *)
-Fixpoint mrun (s : mstate) (ops : list op) : list (list Z) * Z :=
+Fixpoint mrun (fx : fixes) (s : mstate) (ops : list op) : list (list Z) * Z :=
   match ops with
   | [] => ([], 0)
   | o :: ops' =>
-      let '(s', r, t) := mstep s o in
-      match m_snapshot s' with
+      let '(s', r, t) := mstep fx s o in
+      match m_snapshot fx s' with
       | None => ([r ++ [9]], if t =? 0 then 3 else t)
       | Some snap =>
           let t := if t =? 0 then m_snapshot_tag s' else t in
-          let '(rest, t') := mrun s' ops' in
+          let '(rest, t') := mrun fx s' ops' in
           ((r ++ snap) :: rest, if t =? 0 then t' else t)
       end
   end.
